@@ -3,6 +3,7 @@ archived, apply patch.diff to a scratch worktree of /repo (under /tmp, removed a
 caught it (from frozen copies of /verif's HEAD under /tmp/vsnapr, one per job) and report whether it is still caught.
 
     python harness/seed_regress.py out.json [--jobs 3] [--only C05-a,C06-b] [--all-catchers]
+    python harness/seed_regress.py out.json --refactorings [--jobs 2]     (seeded/R*: all 20 checks, no alarm expected)
 
 Nothing is written under /verif/seeded; the result goes to out.json (and a one-line-per-change log on stdout)."""
 import json
@@ -24,7 +25,7 @@ def sh(cmd, cwd, timeout=3600, env=None):
 
 
 def one(args):
-    sid, checks, ncpu = args
+    sid, checks, ncpu, run_all = args
     run = SNAPS.get()
     wt = f"/tmp/wtr/{sid}"
     sh(f"git -C {REPO} worktree remove --force {wt}", "/")
@@ -40,7 +41,7 @@ def one(args):
             rc, o = sh(f"./check {c} --tier quick", run, env=env)
             lines = [l for l in o.splitlines() if l.startswith(("VIOLATION", "  clause", "OK", "KNOWN", "MACHINERY"))]
             res["checks"][c] = {"exit": rc, "first_lines": [l[:200] for l in lines[:3]]}
-            if rc == 1:
+            if rc == 1 and not run_all:
                 break
         res["caught"] = any(r["exit"] == 1 for r in res["checks"].values())
     finally:
@@ -56,7 +57,16 @@ def main():
     only = set(sys.argv[sys.argv.index("--only") + 1].split(",")) if "--only" in sys.argv else None
     ncpu = max(2, 14 // jobs)
     todo = []
+    refactorings = "--refactorings" in sys.argv
+    if refactorings:
+        # the other direction: behaviour-preserving refactorings (seeded/R*), all 20 checks, none may raise an alarm
+        allc = [f"C{i:02d}" for i in range(1, 21)]
+        for d in sorted((VERIF / "seeded").iterdir()):
+            if d.name.startswith("R") and (d / "patch.diff").exists() and (not only or d.name in only):
+                todo.append((d.name, allc, ncpu, True))
     for d in sorted((VERIF / "seeded").iterdir()):
+        if refactorings:
+            break
         m = d / "meta.json"
         if not m.exists():
             continue
@@ -66,7 +76,7 @@ def main():
         if only and j["id"] not in only:
             continue
         checks = j["caught_by"] if "--all-catchers" in sys.argv else j["caught_by"][:1]
-        todo.append((j["id"], checks, ncpu))
+        todo.append((j["id"], checks, ncpu, False))
     for k in range(jobs):
         snap = f"/tmp/vsnapr/{k}"
         rc, o = sh(f"rm -rf {snap} && mkdir -p {snap} && git -C {VERIF} archive HEAD | tar -x -C {snap} && cd {snap} && ./setup.sh", "/")
@@ -76,6 +86,10 @@ def main():
     with ThreadPoolExecutor(jobs) as ex:
         res = list(ex.map(one, todo))
     json.dump(res, open(out, "w"), indent=1)
+    if refactorings:
+        alarms = {r["id"]: [c for c, x in r["checks"].items() if x["exit"] != 0] for r in res}
+        print(f"{len(res)} refactorings; alarms: { {k: v for k, v in alarms.items() if v} }")
+        return
     missed = [r["id"] for r in res if not r.get("caught")]
     print(f"{len(res)} changes, {len(res) - len(missed)} still caught; missed: {missed}")
 
